@@ -3,7 +3,7 @@
 // (as_decision/as_solution, constraints(), art_parameter_begin/end, denominator(), child_node(),
 // parametric_values()).  No private access is used in this file.
 //
-// usage: run_pip <timeout-seconds>      (cases on stdin, results on stdout)
+// usage: run_pip <cpu-seconds-per-case>      (cases on stdin, results on stdout)
 //
 // input, one token sequence per line:
 //   case <id>
@@ -34,6 +34,7 @@
 #include <csignal>
 #include <cstdlib>
 #include <unistd.h>
+#include <sys/time.h>
 #include <gmpxx.h>
 #include "ppl-config.h"
 #include "Init_defs.hh"
@@ -56,6 +57,15 @@ static void on_alarm(int) {
   std::string s = "\nR " + cur_id + " " + std::to_string(cur_step) + " TIMEOUT\n";
   ssize_t r = write(1, s.c_str(), s.size()); (void) r;
   _exit(3);
+}
+
+// per-case limit in CPU seconds of this process (not wall-clock: the verdict "does not return"
+// must not depend on how loaded the machine is)
+static void set_cpu_timer(int seconds) {
+  struct itimerval it;
+  it.it_interval.tv_sec = 0; it.it_interval.tv_usec = 0;
+  it.it_value.tv_sec = seconds; it.it_value.tv_usec = 0;
+  setitimer(ITIMER_PROF, &it, 0);
 }
 
 static void print_expr(std::ostream& os, const Linear_Expression& e) {
@@ -127,7 +137,7 @@ static bool next_line(std::istringstream& ls) {
 
 int main(int argc, char** argv) {
   int tmo = argc > 1 ? atoi(argv[1]) : 5;
-  signal(SIGALRM, on_alarm);
+  signal(SIGPROF, on_alarm);
   std::istringstream ls;
   PIP_Problem* pip = 0;
   while (next_line(ls)) {
@@ -137,9 +147,9 @@ int main(int argc, char** argv) {
         ls >> cur_id; cur_step = 0;
         delete pip; pip = 0;
         std::cout << "B " << cur_id << std::endl;
-        alarm(tmo);
+        set_cpu_timer(tmo);
       } else if (op == "end") {
-        alarm(0);
+        set_cpu_timer(0);
         delete pip; pip = 0;
         std::cout << "Z " << cur_id << std::endl;
       } else if (op == "new") {
